@@ -78,7 +78,11 @@ def check_input(acc, root, m, cc, enc, d):
     acc.count("evaluations")
     acc.count("strict:" + (s.kind if not s.kind.startswith("ESCAPE") else "ESCAPE"))
     if s.kind.startswith("ESCAPE") or s.kind == "GUARD":
+        # strict mode fails with an internal error (C06's subject, known findings F8 / F9); the relation still says
+        # something: warn mode must not accept what strict mode does not accept
         acc.count("skipped_strict_internal_error")
+        if w.kind == "Done" and not any(e[0] == "W" for e in w.events):
+            acc.violation({"clause": "strict-internal-error-warn-accepts", "root": oracle.rootclass(root), "exc": s.kind, "where": s.details.get("where")}, d(), f"strict mode raises {s.kind} in {s.details.get('where')}; warn mode emits no warning and ends normally", size=len(m))
         return
     fw = next((e[1] for e in w.events if e[0] == "W"), None)
     acc.shape((oracle.rootclass(root) if oracle.rootclass(root) != "struct" else root, s.kind, oracle.path_shape(s.details.get("cpath") or s.details.get("path")), fw))
